@@ -10,23 +10,37 @@ for i, a in enumerate(sys.argv):
     if a in ("--runs", "--wall", "--scenario"):
         extra += [a, sys.argv[i + 1]]
 patch = os.path.join(seed, "patch.diff")
-st = subprocess.run(["git", "-C", "/repo", "status", "--porcelain"], capture_output=True, text=True).stdout.strip()
+REPO = "/repo"
+env = dict(os.environ)
+if "--worktree" in sys.argv:
+    # experiment in a scratch worktree (does not disturb checks running against /repo)
+    import tempfile
+    REPO = tempfile.mkdtemp(prefix="seedwt-", dir="/tmp")
+    os.rmdir(REPO)
+    subprocess.run(["git", "-C", "/repo", "worktree", "add", "-q", "--detach", REPO, "HEAD"], check=True)
+    env["VERIF_REPO"] = REPO
+st = subprocess.run(["git", "-C", REPO, "status", "--porcelain"], capture_output=True, text=True).stdout.strip()
 if st:
-    sys.exit("/repo is not clean:\n" + st)
-r = subprocess.run(["git", "-C", "/repo", "apply", "--whitespace=nowarn", patch], capture_output=True, text=True)
+    sys.exit(REPO + " is not clean:\n" + st)
+r = subprocess.run(["git", "-C", REPO, "apply", "--whitespace=nowarn", patch], capture_output=True, text=True)
 if r.returncode != 0:
     sys.exit("patch does not apply: " + r.stderr)
 res = {}
 try:
     for p in props:
         t0 = time.time()
-        c = subprocess.run(["/verif/check", p, "--tier", tier, "--no-evidence"] + extra, capture_output=True, text=True, cwd="/verif")
+        c = subprocess.run(["/verif/check", p, "--tier", tier, "--no-evidence"] + extra, capture_output=True, text=True, cwd="/verif", env=env)
         viol = [l for l in (c.stdout + c.stderr).splitlines() if l.startswith("VIOLATION") or l.startswith("violation ") or "HARNESS ERROR" in l or "DETERMINISM" in l or "BUILD FAILED" in l]
         res[p] = {"exit": c.returncode, "wall_s": round(time.time() - t0, 1), "lines": viol[:8]}
         print(p, "exit", c.returncode, "in %.0fs" % (time.time() - t0))
         for l in viol[:8]:
             print("   ", l[:400])
 finally:
-    subprocess.run(["git", "-C", "/repo", "checkout", "--", "."])
-    subprocess.run(["git", "-C", "/repo", "clean", "-fdq"])
+    if REPO == "/repo":
+        subprocess.run(["git", "-C", "/repo", "checkout", "--", "."])
+    else:
+        subprocess.run(["git", "-C", "/repo", "worktree", "remove", "--force", REPO])
+        import glob
+        for f in glob.glob("/verif/.build/*" + __import__("hashlib").sha1(REPO.encode()).hexdigest()[:8] + "*"):
+            os.remove(f)
 print(json.dumps(res))
